@@ -42,26 +42,26 @@ func TestMain(m *testing.M) {
 
 // finding keys that are not built from a field name
 const (
-	keyVoteType     = "vote.signbytes.type-not-bound"                 // D1 (known)
-	keySignTx       = "tx.signtx-ignores-signer-hash"                 // D18 (fixed)
-	keyPanicShort   = "sig.verify-panics.short-signature"             // VerifySignature on < 65 bytes (fixed 3cacbf1)
-	keyPanicROrder  = "sig.verify-panics.r-not-below-curve-order"    // VerifySignature on r == N (fixed 3cacbf1)
-	keyHighS        = "tx.high-s-accepted"                            // s > N/2 accepted by Sender
-	keyMalformed    = "tx.malformed-signature-accepted"               // v/r/s outside the valid ranges accepted
-	keyValidReject  = "tx.valid-signature-rejected"                   // reference accepts, Sender errs
-	keySenderDiffer = "tx.recovered-sender-differs-from-reference"    // both accept, different address
-	keyOtherChain   = "tx.other-chain-accepted"                       // protected tx accepted by a signer of another chain
-	keyRoundTrip    = "tx.sign-recover-mismatch"                      // sign -> Sender != signer's address
-	keySigHash      = "tx.sighash-differs-from-eip155"                // signer.Hash != geth's hash of the same fields
-	keyPVRoundTrip  = "pv.sign-verify-mismatch"                       // PrivValidator signature not accepted for its own address
-	keyPVPubkey     = "pv.signature-not-valid-for-pubkey"             // … or not an ECDSA signature of its public key
-	keyPVAddress    = "pv.address-differs-from-reference"             // GetAddress != keccak(pubkey)[12:]
-	keyForeignVote  = "vote.verify.foreign-signature-accepted"        // another key's signature accepted for this validator
-	keyForeignProp  = "proposal.verify.foreign-signature-accepted"    //
-	keyGarbageVote  = "vote.verify.garbage-signature-accepted"        // a 65-byte string that is not a signature of the validator
-	keyGarbageProp  = "proposal.verify.garbage-signature-accepted"    //
-	keyUnprotected  = "tx.unprotected-rejected-by-chainid-signer"     // documented: ChainIDSigner accepts homestead txs
-	keyCacheConfuse = "tx.sender-cache-crosses-signers"               // cached sender returned for a different signer
+	keyVoteType     = "vote.signbytes.type-not-bound"              // D1 (known)
+	keySignTx       = "tx.signtx-ignores-signer-hash"              // D18 (fixed)
+	keyPanicShort   = "sig.verify-panics.short-signature"          // VerifySignature on < 65 bytes (fixed 3cacbf1)
+	keyPanicROrder  = "sig.verify-panics.r-not-below-curve-order"  // VerifySignature on r == N (fixed 3cacbf1)
+	keyHighS        = "tx.high-s-accepted"                         // s > N/2 accepted by Sender
+	keyMalformed    = "tx.malformed-signature-accepted"            // v/r/s outside the valid ranges accepted
+	keyValidReject  = "tx.valid-signature-rejected"                // reference accepts, Sender errs
+	keySenderDiffer = "tx.recovered-sender-differs-from-reference" // both accept, different address
+	keyOtherChain   = "tx.other-chain-accepted"                    // protected tx accepted by a signer of another chain
+	keyRoundTrip    = "tx.sign-recover-mismatch"                   // sign -> Sender != signer's address
+	keySigHash      = "tx.sighash-differs-from-eip155"             // signer.Hash != geth's hash of the same fields
+	keyPVRoundTrip  = "pv.sign-verify-mismatch"                    // PrivValidator signature not accepted for its own address
+	keyPVPubkey     = "pv.signature-not-valid-for-pubkey"          // … or not an ECDSA signature of its public key
+	keyPVAddress    = "pv.address-differs-from-reference"          // GetAddress != keccak(pubkey)[12:]
+	keyForeignVote  = "vote.verify.foreign-signature-accepted"     // another key's signature accepted for this validator
+	keyForeignProp  = "proposal.verify.foreign-signature-accepted" //
+	keyGarbageVote  = "vote.verify.garbage-signature-accepted"     // a 65-byte string that is not a signature of the validator
+	keyGarbageProp  = "proposal.verify.garbage-signature-accepted" //
+	keyUnprotected  = "tx.unprotected-rejected-by-chainid-signer"  // documented: ChainIDSigner accepts homestead txs
+	keyCacheConfuse = "tx.sender-cache-crosses-signers"            // cached sender returned for a different signer
 )
 
 // ---------------------------------------------------------------- keys
@@ -236,20 +236,26 @@ func mutChain(t *rapid.T, label string, old string) (string, string) {
 		switch pick(t, label+".how", 5) {
 		case 0:
 			n, how = old+string(rune('a'+pick(t, label+".ch", 3))), "append"
-		case 1:
-			if len(old) > 0 {
-				n, how = old[:len(old)-1], "droplast"
+		case 1: // drop the last rune (the string stays valid UTF-8)
+			if r := []rune(old); len(r) > 0 {
+				n, how = string(r[:len(r)-1]), "droplast"
 			} else {
 				n, how = "\x00", "nul"
 			}
-		case 2:
-			if len(old) > 0 {
-				i := pick(t, label+".pos", len(old))
+		case 2: // flip the low bit of one ASCII byte (stays ASCII)
+			var ascii []int
+			for i := 0; i < len(old); i++ {
+				if old[i] < 0x80 {
+					ascii = append(ascii, i)
+				}
+			}
+			if len(ascii) > 0 {
+				i := ascii[pick(t, label+".pos", len(ascii))]
 				b := []byte(old)
 				b[i] ^= 1
 				n, how = string(b), "flip"
 			} else {
-				n, how = "x", "x"
+				n, how = old+"x", "x"
 			}
 		case 3:
 			n, how = "p"+old, "prepend"
@@ -483,5 +489,4 @@ func TestDirected(t *testing.T) {
 		probe(keyPanicROrder, "a signature with r = curve order, s = 1, v = 0", sig65(curveN, big.NewInt(1), 0))
 		probe(keyPanicROrder, "a signature with r = curve order, genuine s, v = 1", sig65(curveN, new(big.Int).SetBytes(v.Signature[32:64]), 1))
 	}
-}
 }
